@@ -27,6 +27,7 @@ SerClause(r) ==
   IN
   IF gap THEN "domain:escape-gap"                      \* generator error, not a violation
   ELSE IF r.fmt = "sm" /\ SMExtraGap(o) THEN "known:msd-gap:extra-component-hash-after-linebreak"
+  ELSE IF ObjCtxGap(o, r.fmt) THEN "known:msd-gap:hash-value-after-linebreak-through-empty-key"
   ELSE IF r.serst # "ok" THEN "serialize-raised"
   ELSE IF lx.st # "ok" THEN "strict-parser-rejects-output"
   ELSE IF ~(IF r.fmt = "sm" THEN SerOK_SM(o, ps) ELSE SerOK_SSC(o, ps)) THEN "parameter-structure"
